@@ -313,6 +313,9 @@ func c18RandArr(rng *rand.Rand, maxb, maxn int) ([]c18Arr, int) {
 // the commands run as subprocesses: name -> can take `-o`
 var c18Commands = []string{"obiconvert", "obigrep", "obiannotate", "obiuniq", "obicomplement", "obipairing", "obicsv", "obidistribute"}
 
+// commands whose second output is written by a goroutine that registers its pipes itself (dynamic registration): only the dyn-* scenarios
+var c18DynCommands = []string{"obimultiplex", "obitagpcr"}
+
 func (c18) Gen(rng *rand.Rand, tier string, emit func(string)) {
 	var lines []string
 	add := func(l string) { lines = append(lines, l) }
@@ -495,6 +498,16 @@ func (c18) Gen(rng *rand.Rand, tier string, emit func(string)) {
 		cmd("obiconvert", "paired1", 30, 0, fm) // the first one
 	}
 	cmd("obiconvert", "nofault-paired", 30, 0, "fastq")
+	// second outputs written by a goroutine that registers its pipes itself (dynamic registration, Props/C18Reg.lean)
+	for _, name := range []string{"obigrep", "obimultiplex", "obitagpcr"} {
+		cmd(name, "dyn-devfull", 3, 0, "fasta")
+		cmd(name, "dyn-devfull", 1500, 0, "fasta")
+		cmd(name, "dyn-nodir", 3, 0, "fasta") // nothing to write to the second output: only the cover keeps main waiting
+		cmd(name, "nofault-dyn-ok", 30, 0, "fasta")
+		if name != "obigrep" || tier == "thorough" {
+			cmd(name, "nofault-dyn-fifo", 3, 0, "fasta") // the output is opened 400 ms late: the command must still be there
+		}
+	}
 	n := 500
 	if tier == "thorough" {
 		n = 2500
@@ -1492,7 +1505,7 @@ func c18BuildCommands() error {
 		}
 		os.MkdirAll(c18CmdDir(), 0o755)
 		args := []string{"build", "-o", c18CmdDir() + "/"}
-		for _, n := range c18Commands {
+		for _, n := range append(append([]string{}, c18Commands...), c18DynCommands...) {
 			args = append(args, "./cmd/obitools/"+n)
 		}
 		cmd := exec.Command("go", args...)
@@ -1537,6 +1550,45 @@ func c18Inputs(dir string, n int) (fasta, r1, r2 string) {
 	return
 }
 
+// c18TagInputs: reads for obimultiplex / obitagpcr with their sample sheet; assigned: every read carries the tags
+// and primers of sample s1 (nothing is unassigned), otherwise random reads (everything is unassigned)
+func c18TagInputs(dir string, n int, assigned bool) (single, g1, g2, sheet string) {
+	single, g1, g2, sheet = filepath.Join(dir, "tag.fastq"), filepath.Join(dir, "tag_1.fastq"), filepath.Join(dir, "tag_2.fastq"), filepath.Join(dir, "sheet.csv")
+	rcm := map[byte]byte{'a': 't', 'c': 'g', 'g': 'c', 't': 'a'}
+	rc := func(x string) string {
+		b := make([]byte, len(x))
+		for i := range x {
+			b[len(x)-1-i] = rcm[x[i]]
+		}
+		return string(b)
+	}
+	fw, rv := "ggtagcgtatcgtaca", "ttgcatcgatcggatc"
+	os.WriteFile(sheet, []byte("experiment,sample,sample_tag,forward_primer,reverse_primer\nexp,s1,aacgt:aacgt,"+fw+","+rv+"\nexp,s2,ccatg:ccatg,"+fw+","+rv+"\n"), 0o644)
+	var a, b, c strings.Builder
+	for i := 0; i < n; i++ {
+		r := rand.New(rand.NewSource(int64(i + 77)))
+		dna := func(m int) string {
+			x := make([]byte, m)
+			for j := range x {
+				x[j] = "acgt"[r.Intn(4)]
+			}
+			return string(x)
+		}
+		read := "aacgt" + fw + dna(50) + rc(rv) + rc("aacgt")
+		if !assigned {
+			read = dna(92)
+		}
+		f, v := read[:80], rc(read)[:80]
+		fmt.Fprintf(&a, "@t%d\n%s\n+\n%s\n", i, read, strings.Repeat("I", len(read)))
+		fmt.Fprintf(&b, "@t%d\n%s\n+\n%s\n", i, f, strings.Repeat("I", 80))
+		fmt.Fprintf(&c, "@t%d\n%s\n+\n%s\n", i, v, strings.Repeat("I", 80))
+	}
+	os.WriteFile(single, []byte(a.String()), 0o644)
+	os.WriteFile(g1, []byte(b.String()), 0o644)
+	os.WriteFile(g2, []byte(c.String()), 0o644)
+	return
+}
+
 // c18Cmd runs a real command as a subprocess: cmd <command> <scenario> <nrecords> <k> <format>
 func c18Cmd(f []string) (res c18Res) {
 	res.over = strings.Join(f, " ")
@@ -1555,8 +1607,12 @@ func c18Cmd(f []string) (res c18Res) {
 	n, e1 := strconv.Atoi(f[3])
 	k, e2 := strconv.Atoi(f[4])
 	known := false
-	for _, c := range c18Commands {
+	for _, c := range append(append([]string{}, c18Commands...), c18DynCommands...) {
 		known = known || c == name
+	}
+	isDyn := strings.Contains(sc, "dyn-")
+	if (name == "obimultiplex" || name == "obitagpcr") && !isDyn {
+		return bad("", "")
 	}
 	if e1 != nil || e2 != nil || !known {
 		return bad("", "")
@@ -1595,7 +1651,23 @@ func c18Cmd(f []string) (res c18Res) {
 		in = append([]string{"-l", "10"}, in...)
 	case "obiannotate":
 		in = append([]string{"--length"}, in...)
+	case "obimultiplex", "obitagpcr":
+		// reads that are all assigned to a sample (nothing for -u: only the cover keeps main waiting) or all unassigned
+		single, g1, g2, sheet := c18TagInputs(dir, n, !strings.Contains(sc, "devfull"))
+		if name == "obimultiplex" {
+			in = []string{"-t", sheet, single}
+		} else {
+			in = []string{"-t", sheet, "-F", g1, "-R", g2}
+		}
 	}
+	if isDyn && name == "obigrep" {
+		// -l 10 keeps every read (nothing for --save-discarded), -l 1000 discards every read
+		if strings.Contains(sc, "devfull") {
+			in = []string{"-l", "1000", fasta}
+		}
+	}
+	var keptOld func() bool
+	var lateReader func(done chan error) bool // dyn-*-fifo: true = the command exited before its second output was opened
 	outFile := filepath.Join(dir, "out."+ext)
 	var stdout *os.File
 	var after func()
@@ -1774,7 +1846,17 @@ func c18Cmd(f []string) (res c18Res) {
 		}
 		if sc == "distribute-append" {
 			args = append(args, "--append")
-			os.WriteFile(filepath.Join(dir, "d_A."+ext+suffix), []byte{}, 0o644)
+			oldA := []byte{}
+			if suffix == "" {
+				oldA = []byte(">old\nacgt\n")
+			}
+			pa := filepath.Join(dir, "d_A."+ext+suffix)
+			os.WriteFile(pa, oldA, 0o644)
+			// Props/C18Open.lean append_keeps_old: what was in a file opened with --append is still there, in front
+			keptOld = func() bool {
+				have, err := os.ReadFile(pa)
+				return err == nil && bytes.HasPrefix(have, oldA)
+			}
 		}
 		args = append(args, "-p", filepath.Join(dir, "d_%s."+ext), "-c", "sample")
 		produced = func() int64 {
@@ -1787,6 +1869,63 @@ func c18Cmd(f []string) (res c18Res) {
 				t += s
 			}
 			return t
+		}
+	case "dyn-devfull", "dyn-nodir", "nofault-dyn-ok", "nofault-dyn-fifo":
+		// the second output (obigrep --save-discarded, obimultiplex -u, obitagpcr -u) is written by a goroutine that
+		// registers its pipes once it runs; the first output goes to a regular file
+		opt := "-u"
+		if name == "obigrep" {
+			opt = "--save-discarded"
+		}
+		u := filepath.Join(dir, "second.fastq")
+		parts := []string{u}
+		if name == "obitagpcr" {
+			parts = []string{filepath.Join(dir, "second_R1.fastq"), filepath.Join(dir, "second_R2.fastq")}
+		}
+		switch sc {
+		case "dyn-devfull":
+			os.Symlink("/dev/full", parts[len(parts)-1])
+		case "dyn-nodir":
+			u = filepath.Join(dir, "no", "such", "dir", "second.fastq")
+		case "nofault-dyn-fifo":
+			for _, q := range parts {
+				if err := syscall.Mkfifo(q, 0o600); err != nil {
+					return bad("", "")
+				}
+			}
+			lateReader = func(done chan error) bool {
+				select {
+				case e := <-done:
+					done <- e
+					return true
+				case <-time.After(400 * time.Millisecond):
+				}
+				for _, q := range parts {
+					go func(q string) {
+						if rd, err := os.OpenFile(q, os.O_RDONLY, 0); err == nil {
+							io.Copy(io.Discard, rd)
+							rd.Close()
+						}
+					}(q)
+				}
+				return false
+			}
+		}
+		args = append(args, opt, u, "-o", outFile)
+		produced = func() int64 {
+			for _, q := range parts {
+				if fileSize(q) < 0 {
+					return 0
+				}
+			}
+			first := outFile
+			if name == "obitagpcr" {
+				first = filepath.Join(dir, "out_R1."+ext)
+			}
+			if fileSize(first) < 0 {
+				return 0
+			}
+			return 1
 		}
 	default:
 		return bad("", "")
@@ -1806,6 +1945,10 @@ func c18Cmd(f []string) (res c18Res) {
 	go func() { done <- cmd.Wait() }()
 	if fifoReader != nil {
 		go fifoReader(cmd.Process.Pid)
+	}
+	exitedEarly := false
+	if lateReader != nil {
+		exitedEarly = lateReader(done)
 	}
 	signaled := false
 	select {
@@ -1834,6 +1977,13 @@ func c18Cmd(f []string) (res c18Res) {
 		class = "large"
 	}
 	sig := "cmd." + name + "." + sc + "." + class
+	if exitedEarly {
+		// the window of Props/C18Reg.lean uncovered_window on the real command: main passed WaitForLastPipe before the
+		// writer of the second output had registered (nobody ever opened the output: the FIFO has no reader yet)
+		res.stats["subprocess:dyn-window"]++
+		res.fails = append(res.fails, Fail{Sig: "cmd." + name + ".dyn-window", Text: name + " ended (" + res.res + ") before its second output was ever opened: main passed WaitForLastPipe before the writer goroutine registered its pipe"})
+		return res
+	}
 	if strings.HasPrefix(sc, "nofault") {
 		if res.res != "exit0" {
 			res.fails = append(res.fails, Fail{Sig: sig, Text: name + " whose outputs can all be written ended with " + res.res + ": " + c18Tail(stderr.String())})
@@ -1841,6 +1991,9 @@ func c18Cmd(f []string) (res c18Res) {
 			res.fails = append(res.fails, Fail{Sig: sig, Text: name + " ended with status 0 but an output is missing or empty"})
 		}
 		return res
+	}
+	if keptOld != nil && !keptOld() {
+		res.fails = append(res.fails, Fail{Sig: sig + ".append-lost-old", Text: name + " --append: the previous content of an output file is no longer in front of it"})
 	}
 	if res.res != "exit-nonzero" {
 		res.fails = append(res.fails, Fail{Sig: sig, Text: name + " one of whose outputs cannot be written ended with " + res.res})
